@@ -66,14 +66,14 @@ Print Assumptions classify_ok_rs_aio_boundary.
 Theorem C10_classify_ok_needed_unserializable : forall ser_exn ecls,
   ~ classify_ok (leaky_unser_send ser_exn) /\ stays_up h_unser_result /\
   exists s, run (leaky_unser_send ser_exn) ecls Tx init h_unser_result =
-              (s, [OAccepted 0 1 100 (V 0) 7 false false; OCalled 0 1 100 (V 0) None; ORaised InCallback ser_exn])
+              (s, [OAccepted 0 1 100 (V 0) C7 (None) false; OCalled 0 1 100 (V 0) None; ORaised InCallback ser_exn])
     /\ active 1 s = 0%nat.
 Proof. exact classify_ok_needed_unserializable. Qed.
 Print Assumptions C10_classify_ok_needed_unserializable.
 Theorem C10_classify_ok_needed_oversized : forall ecls,
   ~ classify_ok leaky_big_send /\ stays_up h_big_error /\
   exists s, run leaky_big_send ecls Aio init h_big_error =
-              (s, [OAccepted 0 1 100 (V 0) 7 false false; OCalled 0 1 100 (V 0) None; ORaised InCallback XValueError])
+              (s, [OAccepted 0 1 100 (V 0) C7 (None) false; OCalled 0 1 100 (V 0) None; ORaised InCallback XValueError])
     /\ active 1 s = 0%nat.
 Proof. exact classify_ok_needed_oversized. Qed.
 Print Assumptions C10_classify_ok_needed_oversized.
@@ -83,9 +83,23 @@ Print Assumptions C10_classify_ok_needed_oversized.
 Theorem C10_progress_only_if_requested : forall classify ecls fl ops s outs,
   run classify ecls fl init ops = (s, outs) ->
   forall pre req sg p post, outs = pre ++ OSent (MYield req sg p true) :: post ->
-  exists k reg args caller, In (OAccepted k req reg args caller true true) pre.
+  exists k reg args caller, In (OAccepted k req reg args caller (Some true) true) pre.
 Proof. exact progress_only_if_requested. Qed.
 Print Assumptions C10_progress_only_if_requested.
+
+(* receive_progress is tri-state in INVOCATION.Details (absent / false / true): only `true` gives the endpoint a progress
+   callable -- an explicit `false` counts like an absent option, whatever the registration. *)
+Theorem C10_progress_callable_iff_true : forall classify ecls fl s req reg args caller rp b d,
+  joined s = true -> amem req (invs s) = false -> alookup reg (regs s) = Some d ->
+  (fl = Tx \/ defers d = false) -> gate_of d = None ->
+  exists s' rest,
+    step classify ecls fl s (OInvocation req reg args caller rp b) =
+      (s', OAccepted (nextk s) req reg args caller rp (r_details d)
+           :: OCalled (nextk s) req reg args
+                (if r_details d then Some (eff_details reg caller, r_details d && match rp with Some true => true | Some false => false | None => false end) else None) :: rest)
+    /\ nocalls rest.
+Proof. exact args_fidelity. Qed.
+Print Assumptions C10_progress_callable_iff_true.
 
 (* "Only before the terminal reply" is FALSE of the code: the progress closure has no guard, so user code that calls
    details.progress after its invocation was answered (here: after an INTERRUPT) still emits a progressive YIELD.
@@ -93,7 +107,7 @@ Print Assumptions C10_progress_only_if_requested.
 Theorem C10_progress_before_terminal_refuted : forall fl,
   stays_up h_progress_after_terminal /\
   snd (run ws_send [] fl init h_progress_after_terminal) =
-    [OAccepted 0 1 100 (V 11) 7 true true; OCalled 0 1 100 (V 11) (Some (7, true))]
+    [OAccepted 0 1 100 (V 11) C7 (Some true) true; OCalled 0 1 100 (V 11) (Some (D7, true))]
     ++ OSent (MError 1 URuntime PEmpty) :: [] ++ OSent (MYield 1 false (V 2) true) :: []
   /\ is_terminal 1 (OSent (MError 1 URuntime PEmpty)) = true
   /\ is_progressive 1 (OSent (MYield 1 false (V 2) true)) = true.
@@ -107,7 +121,7 @@ Theorem C10_progress_before_terminal_partial : forall classify ecls fl s req reg
   exists s' body cb,
     step classify ecls fl s (OInvocation req reg args caller rp b) =
       (s', OAccepted (nextk s) req reg args caller rp (r_details d)
-           :: OCalled (nextk s) req reg args (if r_details d then Some (caller, r_details d && rp) else None) :: body ++ cb)
+           :: OCalled (nextk s) req reg args (if r_details d then Some (eff_details reg caller, r_details d && rp_on rp) else None) :: body ++ cb)
     /\ quiet body /\ noprogs cb.
 Proof. exact progress_sync_before_terminal. Qed.
 Print Assumptions C10_progress_before_terminal_partial.
@@ -176,7 +190,7 @@ Theorem C10_args_fidelity : forall classify ecls fl ops s outs,
   run classify ecls fl init ops = (s, outs) ->
   forall pre k req reg args det post, outs = pre ++ OCalled k req reg args det :: post ->
   exists caller rp wants, In (OAccepted k req reg args caller rp wants) pre
-                          /\ det = (if wants then Some (caller, wants && rp) else None).
+                          /\ det = (if wants then Some (eff_details reg caller, wants && rp_on rp) else None).
 Proof. exact args_fidelity_global. Qed.
 Print Assumptions C10_args_fidelity.
 
@@ -189,7 +203,7 @@ Theorem C10_args_fidelity_step : forall classify ecls fl s req reg args caller r
   exists s' rest,
     step classify ecls fl s (OInvocation req reg args caller rp b) =
       (s', OAccepted (nextk s) req reg args caller rp (r_details d)
-           :: OCalled (nextk s) req reg args (if r_details d then Some (caller, r_details d && rp) else None) :: rest)
+           :: OCalled (nextk s) req reg args (if r_details d then Some (eff_details reg caller, r_details d && rp_on rp) else None) :: rest)
     /\ nocalls rest.
 Proof. exact args_fidelity. Qed.
 Print Assumptions C10_args_fidelity_step.
@@ -200,8 +214,8 @@ Theorem C10_args_fidelity_aio_coroutine : forall classify ecls s req reg args ca
     /\ queue s' = queue s ++ [QStep (nextk s)]
     /\ alookup (nextk s) (calls s') =
          Some {| c_req := req; c_reg := reg; c_args := args;
-                 c_det := if r_details d then Some (caller, r_details d && rp) else None;
-                 c_clos := r_details d && rp; c_st := CFresh b false; c_gate := gate_of d |})
+                 c_det := if r_details d then Some (eff_details reg caller, r_details d && rp_on rp) else None;
+                 c_clos := r_details d && rp_on rp; c_st := CFresh b false; c_gate := gate_of d |})
   /\ (forall s1 k c b1, alookup k (calls s1) = Some c -> c_st c = CFresh b1 false -> c_gate c = None ->
       exists s2 rest, run_item classify ecls s1 (QStep k) = (s2, OCalled k (c_req c) (c_reg c) (c_args c) (c_det c) :: rest)
                       /\ nocalls rest).
@@ -220,7 +234,7 @@ Proof. split; [reflexivity|]. split; intros []; vm_compute; reflexivity. Qed.
 (* progress twice, then INTERRUPT: two progressive YIELDs, then exactly one ERROR; the late result is ignored *)
 Example C10_witness_progress_interrupt : forall fl,
   snd (run ws_send [] fl init h_progress_interrupt) =
-    [OAccepted 0 5 100 (V 11) 7 true true; OCalled 0 5 100 (V 11) (Some (7, true));
+    [OAccepted 0 5 100 (V 11) C7 (Some true) true; OCalled 0 5 100 (V 11) (Some (D7, true));
      OSent (MYield 5 false (V 1) true); OSent (MYield 5 false (V 2) true); OSent (MError 5 URuntime PEmpty)].
 Proof. intros []; vm_compute; reflexivity. Qed.
 
@@ -240,15 +254,23 @@ Proof. intros []; (split; [reflexivity|]); split; vm_compute; reflexivity. Qed.
    and cancelled after the awaited future was resolved but before the Task woke up (ERROR, not YIELD) *)
 Example C10_witness_coroutine_cancel :
   snd (run ws_send [] Aio init h_coro_cancel) =
-    [OAccepted 0 1 100 (V 11) 7 true true; OSent (MError 1 URuntime PEmpty);
-     OAccepted 1 2 100 (V 12) 7 false true; OCalled 1 2 100 (V 12) (Some (7, false)); OSent (MError 2 URuntime PEmpty)].
+    [OAccepted 0 1 100 (V 11) C7 (Some true) true; OSent (MError 1 URuntime PEmpty);
+     OAccepted 1 2 100 (V 12) C7 (None) true; OCalled 1 2 100 (V 12) (Some (D7, false)); OSent (MError 2 URuntime PEmpty)].
 Proof. vm_compute. reflexivity. Qed.
 
 (* check_types=True: a well-typed call is answered like without the wrapper (asyncio: one loop turn later, as a Task);
    an ill-typed one gets wamp.error.type_check_error and the endpoint is not entered *)
 Example C10_witness_check_types : forall fl,
   snd (run ws_send [] fl init h_check_types) =
-    [OAccepted 0 1 100 (V 11) 7 false true; OCalled 0 1 100 (V 11) (Some (7, false)); OSent (MYield 1 true (V 21) false);
-     OAccepted 1 2 101 (V 12) 7 false false; OSent (MError 2 UTypeCheck PText);
-     OAccepted 2 3 102 (V 13) 7 false false; OSent (MError 3 URuntime PText)].
+    [OAccepted 0 1 100 (V 11) C7 (None) true; OCalled 0 1 100 (V 11) (Some (D7, false)); OSent (MYield 1 true (V 21) false);
+     OAccepted 1 2 101 (V 12) C7 (None) false; OSent (MError 2 UTypeCheck PText);
+     OAccepted 2 3 102 (V 13) C7 (None) false; OSent (MError 3 URuntime PText)].
+Proof. intros []; vm_compute; reflexivity. Qed.
+
+(* receive_progress absent / false / true for the same endpoint (which reports progress whenever it can): only the
+   third invocation yields a progressive result; the first two get the ERROR for calling a progress that is None *)
+Example C10_witness_receive_progress_tristate : forall fl,
+  filter (fun o => match o with OSent _ => true | _ => false end) (snd (run ws_send [] fl init h_tristate)) =
+    [OSent (MError 1 URuntime PText); OSent (MError 2 URuntime PText);
+     OSent (MYield 3 false (V 1) true); OSent (MYield 3 true (V 23) false)].
 Proof. intros []; vm_compute; reflexivity. Qed.
